@@ -177,11 +177,11 @@ func StackSig(st string) string {
 	var out []string
 	for _, ln := range strings.Split(st, "\n") {
 		ln = strings.TrimSpace(ln)
-		if strings.HasPrefix(ln, "github.com/xelaj/mtproto/") && !strings.Contains(ln, "/zverif/") {
+		if (strings.HasPrefix(ln, "github.com/xelaj/mtproto/") || strings.HasPrefix(ln, "github.com/xelaj/mtproto.")) && !strings.Contains(ln, "/zverif/") {
 			if i := strings.Index(ln, "("); i > 0 {
 				ln = ln[:i]
 			}
-			ln = strings.TrimPrefix(ln, "github.com/xelaj/mtproto/")
+			ln = strings.TrimPrefix(strings.TrimPrefix(ln, "github.com/xelaj/mtproto/"), "github.com/xelaj/mtproto.")
 			out = append(out, ln)
 			if len(out) >= 4 {
 				break
